@@ -137,6 +137,10 @@ func main() {
 		fmt.Println(o.Class)
 		return
 	}
+	if *witness == "cfshared" {
+		fmt.Println(c14ContentForSharedParent())
+		return
+	}
 	if *replay != "" {
 		doReplay(*prop, *replay)
 		return
